@@ -3,6 +3,7 @@ Exhaustive generator of small FPy program texts for C15 (shared with the replay 
 
 Statements (names a, b; loop / comprehension target i; parameter x):
   atoms      a += x | a = x | a = b | a = i | b = x | b = a | b = i | a, b = x, x | a = [i for i in xs] | a = [b for i in xs]
+             a = [i for i in i] | b = [a for a, b in zip(b, xs)]
              return x | return a | return b | return i | pass
   compound   if <c> > 0: B            one-armed
              if <c> > 0: B else: B
@@ -19,48 +20,53 @@ size(program) = number of statements, a compound statement counting 1 + its chil
 import itertools
 
 ATOMS = ['a += x', 'a = x', 'a = b', 'a = i', 'b = x', 'b = a', 'b = i', 'a, b = x, x', 'a = [i for i in xs]', 'a = [b for i in xs]',
+         'a = [i for i in i]', 'b = [a for a, b in zip(b, xs)]',          # an iterable that reads the comprehension's own target
          'return x', 'return a', 'return b', 'return i', 'pass']
+# a smaller statement set for exhaustive enumeration at sizes 4 and 5 (exits nested under with / loops / both arms, names introduced in one arm)
+R_ATOMS = ['a = x', 'b = a', 'return x', 'return a']
+R_COMPOUND = ['if1', 'if2', 'while', 'with', 'forr']
 COMPOUND = ['if1', 'if2', 'forr', 'forl', 'forz', 'while', 'with', 'withas']
 
 
-def _blocks(size, depth):
+def _blocks(size, depth, G=None):
     """all statement lists (as nested tuples) of exactly `size` statements, nesting at most `depth` compound levels"""
     if size == 0:
         yield ()
         return
     # first statement takes k statements, the rest size-k
     for k in range(1, size + 1):
-        for first in _stmts(k, depth):
-            for rest in _blocks(size - k, depth):
+        for first in _stmts(k, depth, G):
+            for rest in _blocks(size - k, depth, G):
                 yield (first,) + rest
 
 
-def _nonempty_blocks(size, depth):
+def _nonempty_blocks(size, depth, G=None):
     if size >= 1:
-        yield from _blocks(size, depth)
+        yield from _blocks(size, depth, G)
 
 
-def _stmts(size, depth):
+def _stmts(size, depth, G=None):
+    atoms, compound = G or (ATOMS, COMPOUND)
     if size == 1:
-        for a in ATOMS:
+        for a in atoms:
             yield ('atom', a)
         return
     if depth == 0:
         return
     inner = size - 1
-    for kind in COMPOUND:
+    for kind in compound:
         if kind == 'if2':
             for k in range(1, inner):
-                for b1 in _nonempty_blocks(k, depth - 1):
-                    for b2 in _nonempty_blocks(inner - k, depth - 1):
+                for b1 in _nonempty_blocks(k, depth - 1, G):
+                    for b2 in _nonempty_blocks(inner - k, depth - 1, G):
                         yield (kind, b1, b2)
         else:
-            for b in _nonempty_blocks(inner, depth - 1):
+            for b in _nonempty_blocks(inner, depth - 1, G):
                 yield (kind, b)
 
 
-def count(size, depth=2):
-    return sum(1 for _ in _blocks(size, depth))
+def count(size, depth=2, restricted=False):
+    return sum(1 for _ in _blocks(size, depth, (R_ATOMS, R_COMPOUND) if restricted else None))
 
 
 def render(body):
@@ -114,8 +120,8 @@ def programs(size, depth=2):
         yield body
 
 
-def nth_programs(size, start, stop, depth=2):
-    return itertools.islice(_blocks(size, depth), start, stop)
+def nth_programs(size, start, stop, depth=2, restricted=False):
+    return itertools.islice(_blocks(size, depth, (R_ATOMS, R_COMPOUND) if restricted else None), start, stop)
 
 
 def random_body(rng, size, depth=2):
